@@ -188,7 +188,7 @@ HEADER = ('Require Import PonyV.Model.C20Opt.\nFrom Coq Require Import ZArith Li
           'Definition SCH : list attr := %s.\n' % SCHEMA)
 
 
-def run_bools(ctx, exprs, chunk=700):
+def run_bools(ctx, exprs, chunk=450):
     chunks = []
     for i in range(0, len(exprs), chunk):
         chunks.append('Definition cases : list bool := [\n' + ';\n'.join(exprs[i:i + chunk]) + '].\nEval vm_compute in (failing cases).\n')
